@@ -114,8 +114,27 @@ int main() {
             || p2->in_out_params->alpha_max != params->in_out_params->alpha_max || p2->tgsw_params->l != params->tgsw_params->l || p2->tgsw_params->Bgbit != params->tgsw_params->Bgbit
             || p2->tgsw_params->tlwe_params->alpha_min != params->tgsw_params->tlwe_params->alpha_min || p2->tgsw_params->tlwe_params->alpha_max != params->tgsw_params->tlwe_params->alpha_max
             || p2->tgsw_params->tlwe_params->N != N || p2->tgsw_params->tlwe_params->k != k) fields = false;
-        printf("%zu %zu %d %zu %zu %d %d %d %d %d %d %d %d %d %d %d %d %d %d %ld %ld\n", cb.size(), sb.size(), prefix ? 1 : 0, sb.size() - cb.size(), pb.size(), n, N, k,
-               params->tgsw_params->l, params->ks_t, params->ks_basebit, found ? 1 : 0, re_c ? 1 : 0, re_s ? 1 : 0, gates_eq ? 1 : 0, dec_eq ? 1 : 0, fields ? 1 : 0, cross ? 1 : 0, dec_ok ? 1 : 0, clear, unmasked);
+        // noise of the public rows must not depend on the secret: error of the body-block rows of every bootstrapping-key sample of the
+        // exported key (phase under the ring key minus s_i*h_j at coefficient 0), pooled by the value of the encrypted key bit;
+        // and of the key-switching rows (h >= 1) pooled by the value of the ring-key coefficient they encode
+        long double q0 = 0, q1 = 0, r0 = 0, r1 = 0; long c0 = 0, c1 = 0, d0 = 0, d1 = 0;
+        {
+            const TGswParams *gp = ck2->bk->bk_params; const int l = gp->l;
+            TorusPolynomial *ph = new_TorusPolynomial(N);
+            for (int i = 0; i < n; i++) for (int j = 0; j < l; j++) {
+                tLwePhase(ph, &ck2->bk->bk[i].all_sample[k * l + j], &sk->tgsw_key->tlwe_key);
+                ph->coefsT[0] -= sk->lwe_key->key[i] * gp->h[j];
+                for (int c = 0; c < N; c++) { long double e = (long double) ph->coefsT[c]; if (sk->lwe_key->key[i]) { q1 += e * e; c1++; } else { q0 += e * e; c0++; } }
+            }
+            delete_TorusPolynomial(ph);
+            const LweKeySwitchKey *ks2 = ck2->bk->ks; const int base = ks2->base, t = ks2->t, bb = ks2->basebit;
+            for (int i = 0; i < ks2->n; i++) { int si = sk->tgsw_key->key[i / N].coefs[i % N];
+                for (int j = 0; j < t; j++) for (int h = 1; h < base; h++) {
+                    int32_t e32 = lwePhase(&ks2->ks[i][j][h], sk->lwe_key) - (int32_t) ((uint32_t) (si * h) << (32 - (j + 1) * bb));
+                    long double e = (long double) e32; if (si) { r1 += e * e; d1++; } else { r0 += e * e; d0++; } } }
+        }
+        printf("%zu %zu %d %zu %zu %d %d %d %d %d %d %d %d %d %d %d %d %d %d %ld %ld %ld %.0Lf %ld %.0Lf %ld %.0Lf %ld %.0Lf\n", cb.size(), sb.size(), prefix ? 1 : 0, sb.size() - cb.size(), pb.size(), n, N, k,
+               params->tgsw_params->l, params->ks_t, params->ks_basebit, found ? 1 : 0, re_c ? 1 : 0, re_s ? 1 : 0, gates_eq ? 1 : 0, dec_eq ? 1 : 0, fields ? 1 : 0, cross ? 1 : 0, dec_ok ? 1 : 0, clear, unmasked, c0, c0 ? sqrtl(q0 / c0) : 0.0L, c1, c1 ? sqrtl(q1 / c1) : 0.0L, d0, d0 ? sqrtl(r0 / d0) : 0.0L, d1, d1 ? sqrtl(r1 / d1) : 0.0L);
         fflush(stdout);
         delete_gate_bootstrapping_ciphertext(o2); delete_gate_bootstrapping_ciphertext(o1); delete_gate_bootstrapping_ciphertext_array(3, in);
         delete_gate_bootstrapping_secret_keyset(sk2); delete_gate_bootstrapping_cloud_keyset(ck2); delete_gate_bootstrapping_secret_keyset(sk);
